@@ -385,6 +385,26 @@ theorem e_get_messages (s : Sys) (app mb : String) :
   simp only [List.map, SV.toCell, h, List.map_map]
   congr 1
 
+theorem e_dump_delete (s : Sys) :
+    EntryUWrite "Server_dump_stats__delete_current_0" Server_dump_stats__delete_current_0 [] s := by
+  refine ⟨by simp [GenSql.all, List.lookup], rfl, { s.udb with current := [] },
+    by simp [stmtSem, dumpDeleteStmt, Sys.modUdb], ?_⟩
+  exact (dump_stats_delete s.udb).pos (by simp [bindArgs, Server_dump_stats__delete_current_0])
+
+def optNatSV : Option Nat → SV
+  | none => .none
+  | some b => .int b
+
+theorem e_dump_insert (s : Sys) (rebooted now : Time) (blur : Option Nat) (conns : Nat) :
+    EntryUWrite "Server_dump_stats__insert_current_0" Server_dump_stats__insert_current_0
+      [.int rebooted, .int now, optNatSV blur, .int conns] s := by
+  refine ⟨by simp [GenSql.all, List.lookup], rfl,
+    { s.udb with current := s.udb.current ++ [⟨rebooted, now, blur, conns⟩] },
+    by cases blur <;> simp [stmtSem, dumpInsertStmt, optNatOfSV, optNatSV, Sys.modUdb], ?_⟩
+  exact (dump_stats_insert s.udb rebooted now blur conns).pos
+    (by cases blur <;>
+        simp [bindArgs, evalArg, Server_dump_stats__insert_current_0, List.lookup, SV.toCell, optNatSV, ofOptNat])
+
 /-! ### coverage -/
 
 /-- the statement names that have an entry theorem above -/
@@ -404,6 +424,7 @@ def tiedNames : List String := [
   "Mailbox_close__delete_mailbox_sides_0", "Mailbox_close__delete_mailboxes_0",
   "AppNamespace__summarize_nameplate_and_store__insert_nameplates_0",
   "AppNamespace__summarize_mailbox_and_store__insert_mailboxes_0",
-  "AppNamespace_log_client_version__insert_client_versions_0", "Mailbox_get_messages__select_messages_0"]
+  "AppNamespace_log_client_version__insert_client_versions_0", "Mailbox_get_messages__select_messages_0",
+  "Server_dump_stats__delete_current_0", "Server_dump_stats__insert_current_0"]
 
 end Wormhole.Tie
